@@ -8,7 +8,10 @@ use std::mem::MaybeUninit;
 use std::sync::atomic::{AtomicBool, AtomicUsize, Ordering};
 #[cfg(all(excsn_fibre_verif, excsn_fibre_verif_shuttle))]
 use crate::internal::sync::{AtomicBool, AtomicUsize, Ordering};
+#[cfg(not(all(excsn_fibre_verif, excsn_fibre_verif_shuttle)))]
 use parking_lot::Mutex;
+#[cfg(all(excsn_fibre_verif, excsn_fibre_verif_shuttle))]
+use crate::internal::sync::Mutex;
 
 // State constants for OneShotShared::state
 pub(super) const STATE_EMPTY: usize = 0; // No value, receiver may be waiting. Initial state.
